@@ -45,6 +45,7 @@ UADS = {
                 {"alias": ["vfg"], "verif_p3": 7.125}],
     "VfDelta": [{}, {"verif_p3": 0.5}],
     "VfAlphaX": [{"molar_mass": 61.5}, {}],     # a name that has another key ('VfAlpha') as prefix
+    "VfEps": [{"id": "lot-3", "type": "vapour", "value": 1.25}, {"ads_id": 2.5, "id": "lot-4"}],   # properties named like columns
 }
 REG_GASES = ["N2", "CO2", "CH4"]   # resolved through the in-memory registry
 UMATS = {
@@ -55,7 +56,10 @@ UMATS = {
     "VfM10": [{"density": 0.75}, {}],          # a name that has another key ('VfM1') as prefix
     "vfm3": [{"batch": "lower-case twin"}, {}],  # differs from 'VfM3' in capitalisation only: a different key
     "Vf M'%_é": [{"batch": "it's 100% \"odd\""}, {}],   # quote, percent, underscore, blank, non-ASCII
+    "VfM5": [{"id": "lot-9", "type": "powder", "value": 3.5}, {"id": "lot-10", "mat_id": 4.5}],   # properties named like columns
 }
+# a database file is named by its path, whatever characters the path contains
+ODD_FILE_NAMES = ["batch #3.db", "what?.db", "set%31.db", "a b'c.db", "x&y=z.db", "ünï cödé.db", "semi;colon.db"]
 PTYPES = {
     "adsorbate": ["verif_p1", "verif_p2", "verif_p3", "verif_px", "molar_mass", "alias"],
     "material": ["density", "molar_mass", "batch", "verif_m1", "verif_mx", "verif_my"],
@@ -184,6 +188,11 @@ def dump_db(path):
         for t in tables:
             rows = con.execute(f'select * from "{t}"').fetchall()
             out[t] = sorted([list(map(_cell, r)) for r in rows], key=lambda r: json.dumps(r))
+        # the schema is content too: an index, trigger, view or column that an operation creates on the side, and the
+        # header fields an application may use, change how the next operation behaves
+        out["__schema__"] = sorted([list(map(_cell, r)) for r in con.execute(
+            "select type, name, tbl_name, sql from sqlite_master")], key=lambda r: json.dumps(r))
+        out["__header__"] = [[k, con.execute("pragma " + k).fetchone()[0]] for k in ("user_version", "application_id")]
         integ = [r[0] for r in con.execute("pragma integrity_check")]
         fk = [list(map(str, r)) for r in con.execute("pragma foreign_key_check")]
     finally:
@@ -318,6 +327,9 @@ def make_cfg(rng, tier):
     }
     if n_files == 2:
         cfg["files"]["F2"] = rng.choices(["bare", "full"], [75, 25])[0]
+    if rng.random() < 0.3:
+        names = rng.sample(ODD_FILE_NAMES, 2)
+        cfg["fnames"] = {"F1": names[0], "F2": names[1]}
     base = {"adsorbate_to_db": 10, "adsorbate_delete_db": 5, "adsorbates_from_db": 3,
             "material_to_db": 10, "material_delete_db": 5, "materials_from_db": 4,
             "ptype_to_db": 6, "ptype_delete_db": 4, "ptypes_from_db": 3,
@@ -339,6 +351,10 @@ def gen_op(rng, cfg, models, favourites):
     op = {"op": o, "db": db, "session": session}
     if rng.random() < 0.2:
         op["path_object"] = True
+    if rng.random() < 0.15:
+        op["verbose"] = True
+    if o in ("adsorbates_from_db", "materials_from_db", "isotherms_from_db") and rng.random() < 0.3:
+        op["scribble"] = True      # the caller edits, in place, the objects it was handed
     if o == "adsorbate_to_db":
         op["ads"] = _ads_spec(rng, open_values=cfg["open_domain"] and rng.random() < 0.2)
         op["overwrite"] = rng.random() < 0.3
@@ -449,7 +465,7 @@ class Run:
         self.dbmap = {}
         self.models = {}
         for f, tpl in sorted(cfg["files"].items()):
-            path = os.path.join(rundir, f + ".db")
+            path = os.path.join(rundir, (cfg.get("fnames") or {}).get(f, f + ".db"))
             shutil.copyfile(ctx.memo["templates"][tpl], path)
             self.dbmap[f] = path
             self.models[f] = new_file_model(ctx, tpl)
